@@ -1,5 +1,7 @@
 import CollectionsC.Proofs.PListHistory
 import CollectionsC.Proofs.PListZip
+import CollectionsC.Proofs.PListXHistory
+import CollectionsC.Proofs.PListObs
 import CollectionsC.Properties.C04
 /-! # C04 (pointer level) — the raw `next`/`prev` links of CC_List
 
@@ -35,11 +37,21 @@ position (so L3 compares node identity across iterator programs too) and proved 
 operations above (insertions, bulk copies, splices, removals, `replace_at`, `reverse`, `filter_mut`, exchange of roles), any
 refusal schedule, any triples.  The iterator mutators have the one-call theorems below (`iter_add_links`, `diter_add_links`,
 `iter_remove_links`, and `iter_mutators_mirror`: the result is well-formed, hence mirrored), from any represented state —
-which covers every state reachable by `POp` histories and iterator calls in any interleaving, but they are not constructors
-of `POp`; the zip mutators have `zip_add_links` / `zip_remove_links` (two lists on one heap).  Elsewhere at link level:
+together with `iter_add_inv2`, `diter_add_inv2`, `iter_remove_inv2` (the pair invariant `Inv2` — the hypothesis of
+`step_refines`/`prun_refines` — is re-established after the call, `history_after_iter_add`) this covers alternations of `POp`
+histories and iterator calls; they are not constructors of `POp`; the zip mutators have `zip_add_links` / `zip_remove_links` — for two **distinct** lists on one heap (`Repr2.disj`;
+zip over the same list: known finding `KF-list-zip-same-list`, kept out of the generators by `gens_list.zip_same_list_excluded`).  Elsewhere at link level:
 `cc_list_sort_in_place` and `cc_list_sort` in `C18PList.lean` (`sort_in_place_mirror`: both traversal directions after the
 in-place sort), the derived-list builders in `C15PList.lean`.  Every list operation the harness can issue now has a
-pointer-level model that the driver runs alongside, so L3 compares node identity across all of them (no resynchronisation). -/
+pointer-level model that the driver runs alongside, so L3 compares node identity across all of them (no resynchronisation).
+
+**Extended histories** (`extended_history_wf`, `Proofs/PListXHistory.lean`): histories over `XOp` = the 16 operations of `POp`
+plus `sort_in_place`, `sort`, and the zip iterator's `add` / `remove` on the nodes at a position `i` of the two lists — from
+`cc_list_new`, any schedule, any triples, every total-preorder comparator and every length-preserving `qsort` stand-in: both
+lists stay represented (well-formed), disjoint, and mirrored.  IN the history theorems: `POp` with full content refinement
+(`history_refines`); the four extras with the invariant (their content: `C18PList`, `zip_add_links`/`zip_remove_links`).  NOT in
+a history theorem: the derived-list builders (they create a third list; one-call theorems `C15PList`), the single iterators
+(whole-program theorem of their own: `C07PList.iter_program_safe`; descending: `diter_add_links`), `zip replace` (data only). -/
 namespace CC.Properties.C04PList
 open CC CC.Chain CC.PList
 open CC.Spec
@@ -51,6 +63,19 @@ theorem mirror (h : Heap) (l : Hdr) (w : WF h l) : bwd h l = (fwd h l).reverse :
 /-- the forward traversal of a represented list is its content, the backward traversal the reversed content -/
 theorem traversals (h : Heap) (l : Hdr) (cs : List Cell) (r : PList.Repr h l cs) :
     fwd h l = dataOf cs ∧ bwd h l = (dataOf cs).reverse ∧ l.size = cs.length := ⟨r.fwd, r.bwd, r.size⟩
+
+/-- the read-only observers on the raw links return what the ideal list returns: `cc_list_get_first`, `cc_list_get_last`,
+`cc_list_get_at` (every index; out of range: `CC_ERR_OUT_OF_RANGE`) -/
+theorem observers_links (h : Heap) (l : Hdr) (cs : List Cell) (r : PList.Repr h l cs) :
+    getFirst h l = LSeq.getFirst (dataOf cs) ∧ getLast h l = LSeq.getLast (dataOf cs) ∧ ∀ i, getAt h l i = LSeq.getAt (dataOf cs) i :=
+  ⟨getFirst_repr r, getLast_repr r, getAt_repr r⟩
+
+/-- the two traversals of `mirror` are the complete, **NULL-terminated** traversals of the C iterators: following `next` from
+`head` (`cc_list_iter_next`) and `prev` from `tail` (`cc_list_diter_next`) ends at NULL after exactly `size` nodes -/
+theorem traversals_null_terminated (h : Heap) (l : Hdr) (w : WF h l) :
+    walkNext h l.size l.head = none ∧ walkPrev h l.size l.tail = none ∧ bwd h l = (fwd h l).reverse := by
+  obtain ⟨cs, r⟩ := w
+  exact ⟨(walks_end r).1, (walks_end r).2, PList.mirror ⟨cs, r⟩⟩
 
 /-- **one step**: every pointer-level operation keeps both lists well-formed and disjoint, and yields exactly the output,
 the ledger and the contents of the sequence-level step (`Model/LinkedList.lean`) on the canonical chains -/
@@ -105,6 +130,20 @@ theorem history_refines_ideal (P : Params) (t1 t2 : Triple) (ops : List POp) (m 
   rw [h1, h5, h6]
   exact ⟨this.1, this.2.1⟩
 
+/-- **extended histories from `new`**: `POp` plus `sort_in_place`, `sort`, zip `add`/`remove` at a position — both lists end
+well-formed and mirrored (and disjoint: `Inv2`) -/
+theorem extended_history_wf (P : Params) (hc : LSeq.CmpPreorder P.cmp) (sortFn : List Nat → List Nat)
+    (hlen : ∀ xs, (sortFn xs).length = xs.length) (t1 t2 : Triple) (ops : List XOp) (m : Mem) :
+    WF (xrun P sortFn (fresh t1 t2) ops m).1.st.heap (xrun P sortFn (fresh t1 t2) ops m).1.l1 ∧
+    WF (xrun P sortFn (fresh t1 t2) ops m).1.st.heap (xrun P sortFn (fresh t1 t2) ops m).1.l2 ∧
+    bwd (xrun P sortFn (fresh t1 t2) ops m).1.st.heap (xrun P sortFn (fresh t1 t2) ops m).1.l1 =
+      (fwd (xrun P sortFn (fresh t1 t2) ops m).1.st.heap (xrun P sortFn (fresh t1 t2) ops m).1.l1).reverse ∧
+    bwd (xrun P sortFn (fresh t1 t2) ops m).1.st.heap (xrun P sortFn (fresh t1 t2) ops m).1.l2 =
+      (fwd (xrun P sortFn (fresh t1 t2) ops m).1.st.heap (xrun P sortFn (fresh t1 t2) ops m).1.l2).reverse ∧
+    ∃ c1 c2, Inv2 (xrun P sortFn (fresh t1 t2) ops m).1 c1 c2 := by
+  obtain ⟨c1, c2, I⟩ := xrun_inv P hc sortFn hlen ops (fresh t1 t2) [] [] m (fresh_inv t1 t2)
+  exact ⟨⟨c1, I.rep.r1⟩, ⟨c2, I.rep.r2⟩, PList.mirror ⟨c1, I.rep.r1⟩, PList.mirror ⟨c2, I.rep.r2⟩, c1, c2, I⟩
+
 /-! ## iterator mutators on the node `iter->last` -/
 
 /-- `cc_list_iter_add` with `last` any node of the list (whatever `iter->index` says — in particular for the second and
@@ -156,7 +195,76 @@ theorem iter_mutators_mirror (s : St) (l : Hdr) (pre post : List Cell) (a : Cell
               PList.mirror ⟨_, diter_add_links s l pre post a x m r hb ha⟩⟩,
    PList.mirror ⟨_, (iter_remove_links s l pre post a m r hb).2⟩⟩
 
-/-- **`cc_list_zip_iter_add`** on two lists sharing the heap, `l1_last`/`l2_last` any nodes `a1`/`a2` of theirs: refused at the
+/-! ## the iterator mutators inside histories
+
+The `*_links` theorems above state what happens to the list; the corollaries below re-establish the **pair invariant** `Inv2`
+(both lists represented and disjoint, all nodes older than the serial counter — the hypothesis of `step_refines` and
+`prun_refines`), so iterator calls can be interleaved with the operations of `POp` at any point of a history. -/
+
+/-- everything `cc_list_iter_add` guarantees (`Keeps`: representation, triple, serial counter, bound, frame, released nodes) -/
+theorem iter_add_keeps (s : St) (l : Hdr) (pre post : List Cell) (a : Cell) (x : Nat) (m : Mem)
+    (r : PList.Repr s.heap l (pre ++ a :: post)) (hb : ∀ y, y ∈ idsOf (pre ++ a :: post) → y < s.fresh)
+    (ha : (m.allocT l.triple).1 = true) :
+    (iterAddAt s l a.1 x m).1 = .ok ∧ (iterAddAt s l a.1 x m).2.2.2 = (m.allocT l.triple).2 ∧
+    Keeps s (iterAddAt s l a.1 x m).2.1 l (iterAddAt s l a.1 x m).2.2.1 (pre ++ a :: post) (pre ++ a :: (s.fresh, x) :: post) :=
+  (iterAddAt_spec s l pre post a x m r hb).2 ha
+
+theorem diter_add_keeps (s : St) (l : Hdr) (pre post : List Cell) (a : Cell) (x : Nat) (m : Mem)
+    (r : PList.Repr s.heap l (pre ++ a :: post)) (hb : ∀ y, y ∈ idsOf (pre ++ a :: post) → y < s.fresh)
+    (ha : (m.allocT l.triple).1 = true) :
+    (diterAddAt s l a.1 pre.length x m).1 = .ok ∧ (diterAddAt s l a.1 pre.length x m).2.2.2 = (m.allocT l.triple).2 ∧
+    Keeps s (diterAddAt s l a.1 pre.length x m).2.1 l (diterAddAt s l a.1 pre.length x m).2.2.1
+      (pre ++ a :: post) (pre ++ (s.fresh, x) :: a :: post) :=
+  (diterAddAt_spec s l pre post a x m r hb).2 ha
+
+theorem iter_remove_keeps (s : St) (l : Hdr) (pre post : List Cell) (a : Cell) (m : Mem)
+    (r : PList.Repr s.heap l (pre ++ a :: post)) (hb : ∀ y, y ∈ idsOf (pre ++ a :: post) → y < s.fresh) :
+    (iterRemoveAt s l a.1 m).1 = a.2 ∧ (iterRemoveAt s l a.1 m).2.2.2 = m.freeT l.triple ∧
+    Keeps s (iterRemoveAt s l a.1 m).2.1 l (iterRemoveAt s l a.1 m).2.2.1 (pre ++ a :: post) (pre ++ post) :=
+  unlinkn_spec s l pre post a m r hb
+
+/-- `cc_list_iter_add` on the first list of a pair keeps the pair invariant -/
+theorem iter_add_inv2 (p : PS) (pre post c2 : List Cell) (a : Cell) (x : Nat) (m : Mem) (I : Inv2 p (pre ++ a :: post) c2)
+    (ha : (m.allocT p.l1.triple).1 = true) :
+    Inv2 { p with st := (iterAddAt p.st p.l1 a.1 x m).2.1, l1 := (iterAddAt p.st p.l1 a.1 x m).2.2.1 }
+      (pre ++ a :: (p.st.fresh, x) :: post) c2 :=
+  Inv2.of_keeps I ((iterAddAt_spec p.st p.l1 pre post a x m I.rep.r1 I.b1).2 ha).2.2 (fun y hy => by
+    rcases mem_ins hy with h | h
+    · exact Or.inl h
+    · exact Or.inr (Nat.le_of_eq h.symm))
+
+/-- `cc_list_diter_add` keeps the pair invariant -/
+theorem diter_add_inv2 (p : PS) (pre post c2 : List Cell) (a : Cell) (x : Nat) (m : Mem) (I : Inv2 p (pre ++ a :: post) c2)
+    (ha : (m.allocT p.l1.triple).1 = true) :
+    Inv2 { p with st := (diterAddAt p.st p.l1 a.1 pre.length x m).2.1, l1 := (diterAddAt p.st p.l1 a.1 pre.length x m).2.2.1 }
+      (pre ++ (p.st.fresh, x) :: a :: post) c2 :=
+  Inv2.of_keeps I ((diterAddAt_spec p.st p.l1 pre post a x m I.rep.r1 I.b1).2 ha).2.2 (fun y hy => by
+    simp only [idsOf_append, idsOf_cons, List.mem_append, List.mem_cons] at hy ⊢
+    rcases hy with h | h | h | h
+    · exact Or.inl (Or.inl h)
+    · exact Or.inr (Nat.le_of_eq h.symm)
+    · exact Or.inl (Or.inr (Or.inl h))
+    · exact Or.inl (Or.inr (Or.inr h)))
+
+/-- `cc_list_iter_remove` / `cc_list_diter_remove` keep the pair invariant -/
+theorem iter_remove_inv2 (p : PS) (pre post c2 : List Cell) (a : Cell) (m : Mem) (I : Inv2 p (pre ++ a :: post) c2) :
+    Inv2 { p with st := (iterRemoveAt p.st p.l1 a.1 m).2.1, l1 := (iterRemoveAt p.st p.l1 a.1 m).2.2.1 } (pre ++ post) c2 :=
+  Inv2.of_keeps I (unlinkn_spec p.st p.l1 pre post a m I.rep.r1 I.b1).2.2 (fun y hy => Or.inl (by
+    simp only [idsOf_append, idsOf_cons, List.mem_append, List.mem_cons] at hy ⊢
+    rcases hy with h | h
+    · exact Or.inl h
+    · exact Or.inr (Or.inr h)))
+
+/-- … and therefore a history of list operations may follow an iterator call (and so on, alternately): from the state after an
+`iter_add` the pointer-level run again refines the sequence-level run on the canonical chains of the contents -/
+theorem history_after_iter_add (P : Params) (p : PS) (pre post c2 : List Cell) (a : Cell) (x : Nat) (m m' : Mem)
+    (I : Inv2 p (pre ++ a :: post) c2) (ha : (m.allocT p.l1.triple).1 = true) (ops : List POp) :
+    ∃ c1' c2', Inv2 (prun P { p with st := (iterAddAt p.st p.l1 a.1 x m).2.1, l1 := (iterAddAt p.st p.l1 a.1 x m).2.2.1 } ops m').2.1 c1' c2' :=
+  (prun_refines P ops _ _ _ m' (iter_add_inv2 p pre post c2 a x m I ha)).elim fun c1' h => h.elim fun c2' h2 => ⟨c1', c2', h2.1⟩
+
+/-- **`cc_list_zip_iter_add`** on two **distinct** lists sharing the heap (hypothesis `Repr2`: both represented, node sets
+disjoint — a zip iterator over the same list is outside these theorems and misbehaves in the library: known finding
+`KF-list-zip-same-list`, witness `corpus/list/defect_zip_same_list_remove.ops`), `l1_last`/`l2_last` any nodes `a1`/`a2` of theirs: refused at the
 first node — nothing happened; refused at the second — only the first block went back through the first list's triple;
 granted — each list gets its own fresh node directly behind its `last`, both stay represented (well-formed) and disjoint -/
 theorem zip_add_links (s : St) (l1 l2 : Hdr) (pre1 post1 pre2 post2 : List Cell) (a1 a2 : Cell) (x1 x2 : Nat) (m : Mem)
@@ -175,8 +283,9 @@ theorem zip_add_links (s : St) (l1 l2 : Hdr) (pre1 post1 pre2 post2 : List Cell)
    fun h1 h2 => ⟨((zipAddAt_spec s l1 l2 pre1 post1 pre2 post2 a1 a2 x1 x2 m r hb1 hb2).2.2 h1 h2).1,
                  ((zipAddAt_spec s l1 l2 pre1 post1 pre2 post2 a1 a2 x1 x2 m r hb1 hb2).2.2 h1 h2).2.2.1⟩⟩
 
-/-- **`cc_list_zip_iter_remove`**: exactly the two nodes `l1_last`, `l2_last` leave their chains (each released through its own
-list's triple), both lists stay represented and disjoint -/
+/-- **`cc_list_zip_iter_remove`** on two **distinct** lists (`Repr2`; over the same list the library unlinks and frees the one
+node twice — `KF-list-zip-same-list`): exactly the two nodes `l1_last`, `l2_last` leave their chains (each released through
+its own list's triple), both lists stay represented and disjoint -/
 theorem zip_remove_links (s : St) (l1 l2 : Hdr) (pre1 post1 pre2 post2 : List Cell) (a1 a2 : Cell) (m : Mem)
     (r : Repr2 s.heap l1 l2 (pre1 ++ a1 :: post1) (pre2 ++ a2 :: post2))
     (hb1 : ∀ y, y ∈ idsOf (pre1 ++ a1 :: post1) → y < s.fresh) (hb2 : ∀ y, y ∈ idsOf (pre2 ++ a2 :: post2) → y < s.fresh) :
@@ -184,6 +293,27 @@ theorem zip_remove_links (s : St) (l1 l2 : Hdr) (pre1 post1 pre2 post2 : List Ce
     Repr2 (iterRemoveAt (iterRemoveAt s l1 a1.1 m).2.1 l2 a2.1 (iterRemoveAt s l1 a1.1 m).2.2.2).2.1.heap (iterRemoveAt s l1 a1.1 m).2.2.1
       (iterRemoveAt (iterRemoveAt s l1 a1.1 m).2.1 l2 a2.1 (iterRemoveAt s l1 a1.1 m).2.2.2).2.2.1 (pre1 ++ post1) (pre2 ++ post2) :=
   ⟨(zipRemove_spec s l1 l2 pre1 post1 pre2 post2 a1 a2 m r hb1 hb2).2.2.1, (zipRemove_spec s l1 l2 pre1 post1 pre2 post2 a1 a2 m r hb1 hb2).2.2.2⟩
+
+/-- the complete statement for `cc_list_zip_iter_add` (status, ledger, `Repr2`, triples, serial counter `+2`, frame) -/
+theorem zip_add_full (s : St) (l1 l2 : Hdr) (pre1 post1 pre2 post2 : List Cell) (a1 a2 : Cell) (x1 x2 : Nat) (m : Mem)
+    (r : Repr2 s.heap l1 l2 (pre1 ++ a1 :: post1) (pre2 ++ a2 :: post2))
+    (hb1 : ∀ y, y ∈ idsOf (pre1 ++ a1 :: post1) → y < s.fresh) (hb2 : ∀ y, y ∈ idsOf (pre2 ++ a2 :: post2) → y < s.fresh)
+    (h1 : (m.allocT l1.triple).1 = true) (h2 : ((m.allocT l1.triple).2.allocT l2.triple).1 = true) :
+    (zipAddAt s l1 l2 a1.1 a2.1 x1 x2 m).1 = .ok ∧
+    (zipAddAt s l1 l2 a1.1 a2.1 x1 x2 m).2.2.2.2 = ((m.allocT l1.triple).2.allocT l2.triple).2 ∧
+    Repr2 (zipAddAt s l1 l2 a1.1 a2.1 x1 x2 m).2.1.heap (zipAddAt s l1 l2 a1.1 a2.1 x1 x2 m).2.2.1 (zipAddAt s l1 l2 a1.1 a2.1 x1 x2 m).2.2.2.1
+      (pre1 ++ a1 :: (s.fresh, x1) :: post1) (pre2 ++ a2 :: (s.fresh + 1, x2) :: post2) ∧
+    (zipAddAt s l1 l2 a1.1 a2.1 x1 x2 m).2.2.1.triple = l1.triple ∧ (zipAddAt s l1 l2 a1.1 a2.1 x1 x2 m).2.2.2.1.triple = l2.triple ∧
+    (zipAddAt s l1 l2 a1.1 a2.1 x1 x2 m).2.1.fresh = s.fresh + 2 ∧
+    (∀ b, b ∉ idsOf (pre1 ++ a1 :: post1) → b ∉ idsOf (pre2 ++ a2 :: post2) → b < s.fresh →
+      (zipAddAt s l1 l2 a1.1 a2.1 x1 x2 m).2.1.heap b = s.heap b) :=
+  (zipAddAt_spec s l1 l2 pre1 post1 pre2 post2 a1 a2 x1 x2 m r hb1 hb2).2.2 h1 h2
+
+/-- everything `cc_list_filter_mut` guarantees (`Keeps`, incl. "the dropped nodes are released") -/
+theorem filter_mut_keeps (pr : Nat → Bool) (s : St) (l : Hdr) (cs : List Cell) (m : Mem) (r : PList.Repr s.heap l cs)
+    (hb : ∀ y, y ∈ idsOf cs → y < s.fresh) (hne : cs ≠ []) :
+    Keeps s (filterMut pr s l m).2.1 l (filterMut pr s l m).2.2.1 cs (cs.filter (fun c => pr c.2)) :=
+  ((filterMut_spec pr s l cs m r hb).2 hne).2.2
 
 /-- `cc_list_filter_mut` at the level of nodes: exactly the nodes whose element fails the predicate leave the chain (one
 release each), the others keep identity and order; the result is well-formed -/
